@@ -244,6 +244,41 @@ def main(run):
                 metas.append(d2)
         kern.release()
         run.sample(dict(translation=text.strip().split("\n"), new=new, replaced=replaced, insert_after=insert_after, table=names))
+    # ---------------- translations that call a helper function brought in through source=[...]: several
+    # reparameterisations of ONE base, each in its own directory with its own version of a same-named helper file,
+    # built one after the other in this process - each must be compiled against the helper next to ITS file
+    stats["helper_sources"] = 0
+    for hv in range(3 if not thorough else 6):
+        hdir = os.path.join(pdir, "hv%d" % hv)
+        os.makedirs(hdir, exist_ok=True)
+        kf, cf = float(hv + 2), float(rng.randint(-3, 3))
+        open(os.path.join(hdir, "verif_helper.c"), "w").write("double vh(double x);\ndouble vh(double x) { return %.1f*x + %.1f; }\n" % (kf, cf))
+        text = "    p1 = vh(a)\n    d = a - p2"
+        desc = dict(translation=text, helper="vh(x) = %g x + %g" % (kf, cf), directory="hv%d" % hv)
+        try:
+            info = reparameterize(base_info, [["a", "", 1.0, [-inf, inf], "", "new parameter a"]], text,
+                                  filename=os.path.join(hdir, "verif_helper_model.py"), source=["verif_helper.c"])
+            model = build_model(info, dtype="double", platform="dll")
+        except Exception as exc:  # noqa
+            run.add(Finding("C16:helper:build", "reparameterisation with a helper source failed to build: %r" % (exc,), desc))
+            continue
+        kern = model.make_kernel(q)
+        for rep in range(3):
+            rho = dict(a=rng.uniform(-5, 5), p2=rng.uniform(-5, 5))
+            rho["p4"] = rho["a"] - rho["p2"] - rng.uniform(0.1, 2)       # inside the base model's validity region (d >= p4)
+            want = dict(p1=kf * rho["a"] + cf, p2=rho["p2"], d=rho["a"] - rho["p2"], p4=rho["p4"])
+            if not valid_py(want):
+                continue
+            got = {p_: float(call_kernel(kern, dict(rho, sel=float(si), scale=1.0, background=0.0), cutoff=0.0)[0]) for si, p_ in enumerate(BASE_PARS)}
+            evals += len(BASE_PARS); stats["helper_sources"] += 1
+            bad = [p_ for p_ in BASE_PARS if not abs(got[p_] - want[p_]) <= 1e-12 * (abs(want[p_]) + 1)]
+            if bad:
+                run.add(Finding("C16:helper", "translation\n%s\nwith helper %s (directory %s) at %s: base parameters %s receive %s, the equations give %s" % (
+                    text, desc["helper"], desc["directory"], rho, bad, [got[p_] for p_ in bad], [want[p_] for p_ in bad]), dict(desc, caller=rho, kernel=got, translated=want)))
+                break
+        else:
+            distinct.add(("helper", hv))
+        kern.release()
     # ---------------- real models against the base model at independently translated parameters
     # ---- insert_after placements of the derived table (no build needed): random partitions of the new parameters
     # over anchors, plus the three misuses (unknown name, a name used twice, a new parameter never placed)
